@@ -1209,6 +1209,55 @@ theorem configured_zone_any_form_excludes_subtree (ps cs : List Ent) (zs : List 
   rw [hcase]
   exact List.mem_filterMap.mpr ⟨t, ht_mem, compiled_zone_of_text t ls hne hp⟩
 
+/-- **The library reads back its own rendering**: for every label list with
+labels of 1..63 bytes and at most 255 wire bytes, `packName (present ls) = some ls`. -/
+theorem packName_present (ls : List (List UInt8)) (hl : ∀ l ∈ ls, 0 < l.length ∧ l.length < 64)
+    (hw : (ls.map fun l => l.length + 1).sum < 255) : packName (present ls) = some ls := by
+  cases ls with
+  | nil => decide
+  | cons l t =>
+    have hne : (l :: t) ≠ [] := by simp
+    have hp : present (l :: t) = presentLabels (l :: t) := by simp [present]
+    have hl0 := hl l (by simp)
+    -- the rendering has at least two characters (a byte and the dot)
+    have hlen : 2 ≤ (presentLabels (l :: t)).length := by
+      cases l with
+      | nil => simp at hl0
+      | cons b bs =>
+        have := presentByte_length_pos b
+        simp [presentLabels, presentLabel, List.flatMap_cons]
+        omega
+    have hemp : (presentLabels (l :: t)).isEmpty = false := by
+      cases hh : presentLabels (l :: t) with
+      | nil => rw [hh] at hlen; simp at hlen
+      | cons _ _ => rfl
+    have hdot : (presentLabels (l :: t) == ['.']) = false := by
+      rw [beq_eq_false_iff_ne]; intro hc; rw [hc] at hlen; simp at hlen
+    unfold packName
+    rw [hp]
+    simp only [hemp, Bool.false_eq_true, if_false, isFqdn_presentLabels _ hne, Bool.not_true, hdot]
+    rw [packGo_labels _ (l :: t) true false [] 0 hl (by omega)]
+    have a : ¬ ((List.map (fun l => l.length + 1) (l :: t)).sum ≥ 256) := by omega
+    have b : ¬ ((List.map (fun l => l.length + 1) (l :: t)).sum ≥ 255) := by omega
+    simp only [List.reverse_nil, List.nil_append, a, b, if_false]
+
+example : packName (present [[97, 46, 98], [0, 233, 92], [79, 82, 71]]) = some [[97, 46, 98], [0, 233, 92], [79, 82, 71]] :=
+  packName_present _ (by decide) (by decide)
+
+/-- **A zone written the way the library renders names compiles to itself** —
+the hypothesis of `compiled_zone_of_text` discharged for every canonical text:
+if the normalised configured text IS the rendering of a well-formed label list
+`ls`, the stored zone is `lower (present ls)` and its whole subtree is excluded
+for every wire name, in any letter case. -/
+theorem configured_canonical_zone_excludes_subtree (ps cs : List Ent) (zs : List Name) (xa x6 : Option (List Ent))
+    (t : Name) (ht_mem : t ∈ zs) (ls : List (List UInt8)) (hne : trimSpace (lower t) ≠ [])
+    (hl : ∀ l ∈ ls, 0 < l.length ∧ l.length < 64) (hw : (ls.map fun l => l.length + 1).sum < 255)
+    (ht : zoneText t = present ls)
+    (pre z : List (List UInt8)) (hz : z ≠ []) (hcase : lower (present z) = lower (present ls)) :
+    (compile ps cs zs xa x6).zoneExcluded (canonical (present (pre ++ z))) = true :=
+  configured_zone_any_form_excludes_subtree ps cs zs xa x6 t ht_mem ls hne
+    (by rw [ht]; exact packName_present ls hl hw) pre z hz hcase
+
 -- "\069xample.org" IS example.org: WWW.Example.ORG is excluded (before fix 9b7ec79 it was not)
 example : packName (zoneText "\\069xample.org".toList) = some [[69, 120, 97, 109, 112, 108, 101], [111, 114, 103]] := by decide
 example : (compile [] [] ["\\069xample.org".toList] none none).zoneExcluded
